@@ -147,6 +147,16 @@ def handleC09 (cmd : String) (args : List Sexp) : Option Sexp :=
         pure (tagged "ok" [tagged "batch" (out.batch.map ofNat),
           (match out.names with | none => .atom "nonames" | some ns => tagged "names" (ns.map .atom)),
           leafToSexp out.leaf])
+  | "c09.reduce_true", [.list batch, dim, keep] => do
+      let batch ← nats? batch
+      let dim ← dimArg? dim
+      let keep ← keep? keep
+      match furtherReduce batch dim keep with
+      | .error e => pure (errSexp e)
+      | .ok .flatAll => pure (tagged "ok" [.atom "flatall"])
+      | .ok .feature => pure (tagged "ok" [.atom "feature"])
+      | .ok (.dims c ds single kd) =>
+        pure (tagged "ok" [tagged "dims" [ofNat c, ofNats ds, .atom (if single then "true" else "false"), keepToSexp kd]])
   | _, _ => none
 
 end TdVerif.Drive
